@@ -63,6 +63,8 @@ Record cspec (c:machine) (co:child_ops) : Prop := {
            items = o_items (sp_level pol c ev val (abs kn)) /\ abs kn' = o_conf (sp_level pol c ev val (abs kn)) /\
            code_ok code (o_taken (sp_level pol c ev val (abs kn))) (o_rejected (sp_level pol c ev val (abs kn))));
   cs_silent : forall ev k, existsb (fun t => trig_matches parents true t (e_ty ev)) (co_trigs co) = false ->
+    sp_level pol c ev val k = Out false false [] k;
+  cs_silent_fct : forall ev k, existsb (fun t => match t with TrEv e => Nat.eqb e (e_ty ev) | _ => false end) (co_trigs co) = false ->
     sp_level pol c ev val k = Out false false [] k
 }.
 
@@ -353,7 +355,6 @@ Qed.
 
 
 (* ---- the candidates of a state, one after the other ---- *)
-Hypothesis Hnofct : c_fct cf = false.
 
 Lemma is11_false : is11 cf = false. Proof. unfold is11. rewrite Hbe. reflexivity. Qed.
 Lemma cc_vals : chain_continue cf 0 = true /\ chain_continue cf 1 = false /\ chain_continue cf 2 = true /\ chain_continue cf 3 = false.
@@ -403,6 +404,65 @@ Proof.
       cbn beta. intros sub rn2 i2 (Hok2 & Hp2 & Ei2 & Ec2 & Hc2). apply sim_ret. cbn zeta. rewrite Tk. cbn [o_taken o_rejected o_items o_conf].
       rewrite app_nil_l. rewrite <- Ec. split; [exact Hok2|]. split; [congruence|]. split; [congruence|]. split; [exact Ec2|].
       apply merge2 with (rj := o_rejected (sp_rows pol mc r ev val t (abs rn1))). exact Hc2.
+Qed.
+
+(* favor_compile_time: the same candidates through the accumulator loop *)
+Definition acc_of (rj:bool) : nat := if rj then 2 else 0.
+Lemma fcont_vals : tab1 fct_chain_continue 0 = true /\ tab1 fct_chain_continue 1 = false /\ tab1 fct_chain_continue 2 = true /\ tab1 fct_chain_continue 3 = false.
+Proof. repeat split; reflexivity. Qed.
+Lemma fstep_ok rj0 h t rj : code_ok h t rj -> code_ok (tab2 fct_chain_step (acc_of rj0) h) t (rj0 || rj).
+Proof.
+  unfold code_ok. destruct t.
+  - intros [->| ->]; destruct rj0; cbn; auto.
+  - destruct rj; intros ->; destruct rj0; reflexivity.
+Qed.
+Lemma loop_stops {A} (ex:A -> M nat) cont step acc l rn : cont acc = false ->
+  sim val (loop_gen ex cont step acc l) rn (fun code rn' items => rn' = rn /\ items = [] /\ code = acc).
+Proof. intros H. destruct l; cbn [loop_gen]; [|rewrite H]; apply sim_ret; auto. Qed.
+
+Lemma L_rows_fct fuel r s ev : forall rows rn rj0, okL mc rn -> 1 <= fuel -> Forall core_row' rows ->
+  sim val (loop_gen (exec_item cf contained mc children fuel r s ev) (tab1 fct_chain_continue) (tab2 fct_chain_step) (acc_of rj0) (map CRow rows)) rn
+      (fun code rn' items => okL mc rn' /\ processing rn' = processing rn /\
+         items = o_items (sp_rows pol mc r ev val rows (abs rn)) /\ abs rn' = o_conf (sp_rows pol mc r ev val rows (abs rn)) /\
+         code_ok code (o_taken (sp_rows pol mc r ev val rows (abs rn))) (rj0 || o_rejected (sp_rows pol mc r ev val rows (abs rn)))).
+Proof.
+  induction rows as [|x t IH]; intros rn rj0 Hok Hfuel Hall; cbn [map loop_gen].
+  - apply sim_ret. cbn. split; [exact Hok|]. repeat (split; [reflexivity|]). unfold code_ok, acc_of. rewrite orb_false_r. reflexivity.
+  - inversion Hall as [|? ? Hx Ht]; subst. rewrite sp_rows_cons.
+    assert (Hc : tab1 fct_chain_continue (acc_of rj0) = true) by (destruct rj0; reflexivity). rewrite Hc.
+    eapply sim_bind; [apply (L_row fuel r x ev rn Hok Hfuel Hx)|].
+    cbn beta. intros res rn1 i1 (Hok1 & Hp1 & Ei & Ec & Eres & Erj).
+    destruct (o_taken (sp_rows pol mc r ev val [x] (abs rn))) eqn:Tk.
+    + subst res. cbn zeta. rewrite Tk.
+      eapply sim_conseq; [apply loop_stops; destruct rj0; reflexivity|]. cbn beta. intros code rn' items (-> & -> & ->).
+      rewrite app_nil_l. split; [exact Hok1|]. split; [exact Hp1|]. split; [exact Ei|]. split; [exact Ec|].
+      unfold code_ok. rewrite Tk. destruct rj0; cbn; auto.
+    + subst res. cbn zeta. rewrite Tk. cbn [o_taken o_rejected o_items o_conf].
+      assert (Eacc : tab2 fct_chain_step (acc_of rj0) 2 = acc_of true) by (destruct rj0; reflexivity). rewrite Eacc.
+      eapply sim_conseq; [apply (IH rn1 true Hok1 Hfuel Ht)|].
+      cbn beta. intros code rn2 i2 (Hok2 & Hp2 & Ei2 & Ec2 & Hc2).
+      rewrite <- Ec. split; [exact Hok2|]. split; [congruence|]. split; [rewrite Ei2, Ei; reflexivity|].
+      split; [exact Ec2|]. rewrite orb_true_r. exact Hc2.
+Qed.
+
+(* the rows alone, as run_cell executes them under either compile policy *)
+Lemma L_run_rows fuel r s ev rows rn0 : okL mc rn0 -> 1 <= fuel -> Forall core_row' rows ->
+  sim val (run_cell cf contained mc children fuel r s ev (map CRow rows)) rn0
+      (fun code rn' items => okL mc rn' /\ processing rn' = processing rn0 /\
+         items = o_items (sp_rows pol mc r ev val rows (abs rn0)) /\ abs rn' = o_conf (sp_rows pol mc r ev val rows (abs rn0)) /\
+         code_ok code (o_taken (sp_rows pol mc r ev val rows (abs rn0))) (o_rejected (sp_rows pol mc r ev val rows (abs rn0)))).
+Proof.
+  intros Hok0 Hf1 Hrows. unfold run_cell. destruct (c_fct cf) eqn:Hfct.
+  - unfold fct_chain. exact (L_rows_fct fuel r s ev rows rn0 false Hok0 Hf1 Hrows).
+  - pose proof (L_rows fuel r s ev rows rn0 Hok0 Hf1 Hrows) as HL.
+    destruct rows as [|x [|y t]] eqn:Ec; cbn [map].
+    + apply sim_ret. cbn. split; [exact Hok0|]. repeat (split; [reflexivity|]). reflexivity.
+    + inversion Hrows as [|? ? Hx _]; subst. cbn [exec_item].
+      eapply sim_conseq; [apply (L_row fuel r x ev rn0 Hok0 Hf1 Hx)|].
+      cbn beta. intros code rn' items (H1 & H2 & H3 & H4 & H5 & H6).
+      split; [exact H1|]. split; [exact H2|]. split; [exact H3|]. split; [exact H4|].
+      rewrite H6. subst code. unfold code_ok. destruct (o_taken _); cbn; auto.
+    + exact HL.
 Qed.
 
 (* the rows of a state in the engine's table are the specification's candidates *)
@@ -502,6 +562,67 @@ Lemma match_id {A} (l:list A) : match l with [] => [] | _ :: _ => l end = l.
 Proof. destruct l; reflexivity. Qed.
 
 (* ---- one region ---- *)
+Lemma L_cell_fct fuel r ev rn : c_fct cf = true -> okL mc rn -> depth mc + 1 <= fuel -> e_ty ev <> EV_NONE ->
+  sim val (run_cell cf contained mc children fuel r (nth r (act rn) 0) ev
+             (cell_items cf parents mc children (nth r (act rn) 0) (e_ty ev))) rn
+      (fun code rn' items => okL mc rn' /\ processing rn' = processing rn /\
+         items = o_items (sp_region pol mc (sp_level_subs pol mc) ev val r (abs rn)) /\
+         abs rn' = o_conf (sp_region pol mc (sp_level_subs pol mc) ev val r (abs rn)) /\
+         code_ok code (o_taken (sp_region pol mc (sp_level_subs pol mc) ev val r (abs rn)))
+                      (o_rejected (sp_region pol mc (sp_level_subs pol mc) ev val r (abs rn)))).
+Proof.
+  intros Hfct Hok Hfuel Hev. set (s := nth r (act rn) 0).
+  assert (Hf1 : 1 <= fuel) by lia.
+  destruct (table_rows_spec s (e_ty ev) Hev) as (Etab & Hrows).
+  destruct (core_state s) as (Hdef & _ & _ & Hsubcore).
+  unfold cell_items. rewrite Hfct. unfold state_defers. rewrite Hdef. cbn [memb existsb negb]. rewrite Etab, app_nil_r, andb_true_r.
+  unfold sp_region. rewrite abs_act. fold s. rewrite level_subs_nth, abs_kid.
+  destruct (s_sub (get_state mc s)) as [c|] eqn:Es.
+  - destruct (child_some s c Es) as (co & Hco & Hsp).
+    destruct (okL_kid mc rn s c Hok Es) as (kn & Hk & Hkn). rewrite Hk. cbn [option_map].
+    pose proof (sub_in_range mc s c Es) as Hlt. pose proof (depth_sub mc s c Es) as Hdep.
+    unfold forwards. rewrite Hco, Hfct.
+    assert (Ene : Nat.eqb (e_ty ev) EV_NONE = false) by (apply Nat.eqb_neq; exact Hev). rewrite Ene. cbn [negb andb].
+    destruct (existsb (fun t => match t with TrEv e => Nat.eqb e (e_ty ev) | _ => false end) (co_trigs co)) eqn:Fw.
+    + assert (Fr : sim val (exec_item cf contained mc children fuel r s ev CFrow) rn
+                (fun code rn' items => okL mc rn' /\ processing rn' = processing rn /\ act rn' = act rn /\
+                   items = map (push_path s) (o_items (sp_level pol c ev val (abs kn))) /\
+                   abs rn' = c_set_kid (abs rn) s (o_conf (sp_level pol c ev val (abs kn))) /\
+                   code_ok code (o_taken (sp_level pol c ev val (abs kn))) (o_rejected (sp_level pol c ev val (abs kn))))).
+      { cbn [exec_item]. rewrite Hco, Hfct.
+        eapply sim_bind.
+        { eapply sim_in_child_x; [exact Hk|]. apply (cs_pei c co Hsp fuel ev kn Hkn); [lia | exact Hev]. }
+        cbn beta. intros res rn1' i1' (kn1 & i1 & (Hkn1 & Ei & Ec & Hcode) & -> & ->).
+        eapply sim_bind; [apply (sim_ret val tt _ (fun _ rn2 i2 => rn2 = set_kids rn (upd (kids rn) s (Some kn1)) /\ i2 = [])); auto|].
+        cbn beta. intros u rn2 i2 (-> & ->).
+        apply sim_ret.
+        split; [eapply okL_set_kid; eauto|]. split; [apply processing_set_kids|]. split; [apply act_set_kids|].
+        rewrite !app_nil_l. split; [rewrite Ei; reflexivity|]. split; [rewrite abs_set_kid, Ec; reflexivity | exact Hcode]. }
+      cbn [app]. unfold run_cell. rewrite Hfct. unfold fct_chain. cbn [loop_gen].
+      change (tab1 fct_chain_continue HANDLED_FALSE) with true. cbn iota.
+      eapply sim_bind; [exact Fr|]. cbn beta. intros res rn1 i1 (Hok1 & Hp1 & Ha1 & Ei1 & Ec1 & Hc1).
+      destruct (o_taken (sp_level pol c ev val (abs kn))) eqn:Tk.
+      * assert (Est : tab2 fct_chain_step HANDLED_FALSE res = res /\ tab1 fct_chain_continue res = false).
+        { unfold code_ok in Hc1. destruct Hc1 as [->| ->]; split; reflexivity. }
+        destruct Est as (Est & Ecf). rewrite Est.
+        eapply sim_conseq; [apply loop_stops; exact Ecf|]. cbn beta. intros code rn' items (-> & -> & ->).
+        rewrite app_nil_l. cbn [o_taken o_rejected o_items o_conf]. auto.
+      * assert (Est : tab2 fct_chain_step HANDLED_FALSE res = acc_of (o_rejected (sp_level pol c ev val (abs kn)))).
+        { unfold code_ok in Hc1. destruct (o_rejected (sp_level pol c ev val (abs kn))); subst res; reflexivity. }
+        rewrite Est.
+        eapply sim_conseq; [apply (L_rows_fct fuel r s ev _ rn1 _ Hok1 Hf1 Hrows)|].
+        cbn beta. intros code rn2 i2 (Hok2 & Hp2 & Ei2 & Ec2 & Hc2).
+        rewrite Ec1 in *. cbn [o_taken o_rejected o_items o_conf].
+        split; [exact Hok2|]. split; [congruence|]. split; [rewrite Ei2, Ei1; reflexivity|]. split; [exact Ec2 | exact Hc2].
+    + rewrite (cs_silent_fct c co Hsp ev (abs kn) Fw). cbn [o_taken o_rejected o_items o_conf map app orb].
+      assert (Eid : c_set_kid (abs rn) s (abs kn) = abs rn) by (apply c_set_kid_same; rewrite abs_kid, Hk; reflexivity).
+      rewrite Eid. cbn [app].
+      eapply sim_conseq; [apply (L_run_rows fuel r s ev _ rn Hok Hf1 Hrows)|]. cbn beta. intros code rn' items (H1 & H2 & H3 & H4 & H5).
+      rewrite app_nil_r. auto.
+  - unfold forwards. rewrite (child_none s Es). cbn [andb app].
+    eapply sim_conseq; [apply (L_run_rows fuel r s ev _ rn Hok Hf1 Hrows)|]. cbn beta. intros code rn' items H. exact H.
+Qed.
+
 Lemma L_cell fuel r ev rn : okL mc rn -> depth mc + 1 <= fuel -> e_ty ev <> EV_NONE ->
   sim val (run_cell cf contained mc children fuel r (nth r (act rn) 0) ev
              (cell_items cf parents mc children (nth r (act rn) 0) (e_ty ev))) rn
@@ -511,7 +632,7 @@ Lemma L_cell fuel r ev rn : okL mc rn -> depth mc + 1 <= fuel -> e_ty ev <> EV_N
          code_ok code (o_taken (sp_region pol mc (sp_level_subs pol mc) ev val r (abs rn)))
                       (o_rejected (sp_region pol mc (sp_level_subs pol mc) ev val r (abs rn)))).
 Proof.
-  intros Hok Hfuel Hev. set (s := nth r (act rn) 0).
+  intros Hok Hfuel Hev. destruct (c_fct cf) eqn:Hnofct; [apply L_cell_fct; assumption|]. set (s := nth r (act rn) 0).
   assert (Hf1 : 1 <= fuel) by lia.
   destruct (table_rows_spec s (e_ty ev) Hev) as (Etab & Hrows).
   destruct (core_state s) as (Hdef & _ & _ & Hsubcore).
@@ -707,17 +828,7 @@ Proof.
         eapply sim_bind with (P := fun ri rn3 i3 => okL mc rn3 /\ processing rn3 = processing rn1 /\
             i3 = o_items (sp_rows pol mc 0 ev val irs (abs rn1)) /\ abs rn3 = o_conf (sp_rows pol mc 0 ev val irs (abs rn1)) /\
             code_ok ri (o_taken (sp_rows pol mc 0 ev val irs (abs rn1))) (o_rejected (sp_rows pol mc 0 ev val irs (abs rn1)))).
-        { unfold run_cell. rewrite Hnofct.
-          pose proof (L_rows fuel 0 (nth 0 (act rn1) 0) ev irs rn1 Hok1 Hf1 Hgood) as HL.
-          destruct irs as [|x [|y t]] eqn:Ec; cbn [map].
-          - apply sim_ret. cbn. split; [exact Hok1|]. repeat (split; [reflexivity|]). reflexivity.
-          - inversion Hgood as [|? ? Hx _]; subst. cbn [exec_item].
-            eapply sim_conseq; [apply (L_row fuel 0 x ev rn1 Hok1 Hf1 Hx)|].
-            cbn beta. intros code rn' items (H1 & H2 & H3 & H4 & H5 & H6).
-            split; [exact H1|]. split; [exact H2|]. split; [exact H3|]. split; [exact H4|].
-            rewrite H6. subst code. unfold code_ok.
-            destruct (o_taken (sp_rows pol mc 0 ev val [x] (abs rn1))); [left; reflexivity | reflexivity].
-          - exact HL. }
+        { exact (L_run_rows fuel 0 (nth 0 (act rn1) 0) ev irs rn1 Hok1 Hf1 Hgood). }
         cbn beta. intros ri rn3 i3 (Hok3 & Hp3 & Ei3 & Ec3 & Hc3). apply sim_ret. rewrite app_nil_l.
         rewrite <- Ec1. cbn zeta. cbn [o_taken o_rejected o_items o_conf].
         split; [exact Hok3|]. split; [congruence|]. split; [rewrite Ei3, Ei1, app_nil_r; reflexivity|]. split; [exact Ec3|].
@@ -900,22 +1011,24 @@ Qed.
 Lemma filter_nil_Forall {A} (f:A -> bool) l : (forall x, In x l -> f x = false) -> filter f l = [].
 Proof. intros H. induction l as [|x l IH]; cbn; [reflexivity|]. rewrite (H x) by (left; reflexivity). apply IH. intros y Hy. apply H. right. exact Hy. Qed.
 
-Lemma L_silent ev c :
-  existsb (fun t => trig_matches parents true t (e_ty ev)) (level_trigs cf mc children) = false ->
+Lemma L_silent_gen (tm:trigger -> bool) ev c :
+  (forall x, good x -> tm (r_trig x) = false -> sp_matches (e_ty ev) x = false) ->
+  (forall m co k, cspec m co -> existsb tm (co_trigs co) = false -> sp_level pol m ev val k = Out false false [] k) ->
+  existsb tm (level_trigs cf mc children) = false ->
   sp_level pol mc ev val c = Out false false [] c.
 Proof.
-  intros Hs. unfold level_trigs in Hs. rewrite is11_false in Hs. rewrite !existsb_app in Hs.
+  intros Htm Hkid Hs. unfold level_trigs in Hs. rewrite is11_false in Hs. rewrite !existsb_app in Hs.
   apply orb_false_iff in Hs. destruct Hs as (Hrows & Hs). apply orb_false_iff in Hs. destruct Hs as (Hrest & Hkids).
   apply orb_false_iff in Hrest. destruct Hrest as (Hirows & Hsirows).
-  assert (Hun : forall l, Forall good l -> existsb (fun t => trig_matches parents true t (e_ty ev)) (map r_trig l) = false ->
+  assert (Hun : forall l, Forall good l -> existsb tm (map r_trig l) = false ->
                           filter (sp_matches (e_ty ev)) l = []).
-  { intros l Hg He. apply filter_nil_Forall. intros x Hx. eapply Forall_forall in Hg; eauto. apply good_unmatched; [exact Hg|].
+  { intros l Hg He. apply filter_nil_Forall. intros x Hx. eapply Forall_forall in Hg; eauto. apply Htm; [exact Hg|].
     rewrite existsb_forall in He. apply He. apply in_map. exact Hx. }
   assert (Hcand : forall s, sp_candidates mc s (e_ty ev) = []).
   { intros s. unfold sp_candidates.
     assert (E1 : filter (fun x => Nat.eqb (r_src x) s && sp_matches (e_ty ev) x) (m_rows mc) = []).
     { apply filter_nil_Forall. intros x Hx. pose proof core_rows_good as Hg. eapply Forall_forall in Hg; eauto.
-      rewrite (good_unmatched _ x Hg); [apply andb_false_r|].
+      rewrite (Htm x Hg); [apply andb_false_r|].
       rewrite existsb_forall in Hrows. apply Hrows. apply in_map. exact Hx. }
     rewrite E1. cbn [rev]. rewrite app_nil_r. destruct (is_sub mc s); [reflexivity|].
     destruct (core_state s) as (_ & Hsi & _). rewrite (Hun _ Hsi); [reflexivity|].
@@ -928,7 +1041,7 @@ Proof.
     destruct (s_sub (get_state mc (nth r (c_act c0) 0))) as [m|] eqn:Es; [|reflexivity].
     destruct (nth (nth r (c_act c0) 0) (c_kids c0) None) as [k|] eqn:Ek; [|reflexivity].
     destruct (child_some _ m Es) as (co & Hco & Hsp).
-    rewrite (cs_silent m co Hsp ev k).
+    rewrite (Hkid m co k Hsp).
     - cbn [o_taken o_rejected o_items o_conf sp_rows map app orb]. rewrite c_set_kid_same by exact Ek. reflexivity.
     - rewrite existsb_forall in Hkids |- *. intros t Ht. apply Hkids. apply in_flat_map.
       exists (Some co). split; [|exact Ht]. unfold child in Hco. rewrite <- Hco. apply nth_In.
@@ -943,6 +1056,22 @@ Proof.
   rewrite Hfold by reflexivity. cbn [o_taken o_rejected o_items o_conf].
   rewrite (Hun _ core_irows_good Hirows). reflexivity.
 Qed.
+Lemma L_silent ev c :
+  existsb (fun t => trig_matches parents true t (e_ty ev)) (level_trigs cf mc children) = false ->
+  sp_level pol mc ev val c = Out false false [] c.
+Proof.
+  apply L_silent_gen.
+  - intros x Hg. apply good_unmatched. exact Hg.
+  - intros m co k Hsp. apply (cs_silent m co Hsp ev k).
+Qed.
+Lemma L_silent_fct ev c :
+  existsb (fun t => match t with TrEv e => Nat.eqb e (e_ty ev) | _ => false end) (level_trigs cf mc children) = false ->
+  sp_level pol mc ev val c = Out false false [] c.
+Proof.
+  apply L_silent_gen.
+  - intros x (_ & (e & He & _)). unfold sp_matches. rewrite He. exact (fun H => H).
+  - intros m co k Hsp. apply (cs_silent_fct m co Hsp ev k).
+Qed.
 
 End BackSpec.
 
@@ -950,7 +1079,6 @@ End BackSpec.
 Section BackWhole.
 Variable cf : cfg.
 Hypothesis Hbe : c_be cf = Back.
-Hypothesis Hnofct : c_fct cf = false.
 Variable parents : list (option nat).
 Hypothesis Hflat : forall e, nth e parents None = None.
 Variable val : list nat.
@@ -1031,6 +1159,7 @@ Proof.
     unfold level_post. cbn beta. intros code kn' items (H1 & H2). split; [exact H1|]. cbn zeta in H2. cbn in H2.
     destruct H2 as (H2 & H3 & H4). auto.
   - intros ev k Hs. eapply L_silent; eauto.
+  - intros ev k Hs. eapply L_silent_fct; eauto.
 Qed.
 
 
